@@ -74,6 +74,26 @@ pub fn call(slot: usize, arg: Option<String>) {
     }
 }
 
+/// Outputs alive per slot, and the largest number of earlier outputs alive at the time of a call.
+pub static LIVE: [AtomicU64; SLOTS] = [Z; SLOTS];
+pub static MAX_LIVE: [AtomicU64; SLOTS] = [Z; SLOTS];
+
+/// An output with a destructor: the runner must keep it until the sample's calls are over.
+pub struct Out(pub usize);
+impl Drop for Out {
+    fn drop(&mut self) {
+        LIVE[self.0].fetch_sub(1, SeqCst);
+    }
+}
+
+/// Body of a benchmark without a `Bencher` that returns such an output.
+pub fn call_out(slot: usize, arg: Option<String>) -> Out {
+    call(slot, arg);
+    let before = LIVE[slot].fetch_add(1, SeqCst);
+    MAX_LIVE[slot].fetch_max(before, SeqCst);
+    Out(slot)
+}
+
 /// Index of `T` in the `types = [...]` list of its benchmark.
 pub fn ti<T: 'static>(ids: &[TypeId]) -> usize {
     ids.iter().position(|t| *t == TypeId::of::<T>()).expect("instantiated with a type outside the list")
@@ -223,6 +243,13 @@ pub fn main() {
     for (slot, arg, n) in CALLS.lock().unwrap().iter() {
         log(format!("C {slot} {} {n}", arg.as_deref().map(hex).unwrap_or_else(|| "~".into())));
     }
+    let live: Vec<String> = MAX_LIVE
+        .iter()
+        .enumerate()
+        .filter(|(k, _)| CALLS.lock().unwrap().iter().any(|c| c.0 == *k))
+        .map(|(k, m)| format!("{k}:{}", m.load(SeqCst)))
+        .collect();
+    log(format!("V {}", if live.is_empty() { "-".to_string() } else { live.join(",") }));
     let evals: Vec<String> = EV.iter().map(|a| a.load(SeqCst).to_string()).collect();
     log(format!("E {}", evals.join(" ")));
     log("DONE".into());
